@@ -143,17 +143,6 @@ vp_lru_shard(uint32_t hash) {
   return VP_S;
 }
 
-/* Replaces the static lru_table_resize() (goto-instrument --replace-calls):
-   with <= 4 entries and 4 buckets lru_table_insert never resizes
-   (elems > length is false); the symbolic executor cannot see that and would
-   otherwise merge the resized table into every later pointer.  If the call
-   were reachable this model assertion fails and the check is reported broken. */
-void
-vp_no_resize(lru_table_t *tbl) {
-  (void)tbl;
-  VP_ASSERT(0, "vp-model: hash table resize is not reachable at this size");
-}
-
 /* ---- allocator ---------------------------------------------------------- */
 void *
 ldb_malloc(size_t size) {
